@@ -6,7 +6,13 @@ import StraxModel.Lemmas.BackpressurePool
   `lazy_gate`, `lazy_gate_old_counterexample` are in Props/C13.lean).
 
   All theorems quantify over every reachable state of `wire w n` — every schedule, every run length `n`, every chain
-  length, any number of savers per mailbox, lazy and eager.  "Emitted" counts the advances of the source (`n` chunks
+  length, any number of savers per mailbox, lazy and eager, with and without worker pool.  They are about CHAINS (flag-level
+  model); the other graphs of the property's quantifier (diamonds, multi-output) are covered by the siblings in
+  Props/C13Dag.lean (guard-level nets), so no theorem here carries `_partial`.  Hypotheses: `WellFormed w` (at least one
+  mailbox, every capacity ≥ 1) is the property's own domain (capacities 1..4); `w.lazy = true` / `w.pool = false` select the
+  mode a clause of the property speaks about, the other mode has its own theorem (`…_pool`, eager = no `lazy` hypothesis).
+  `chain_rest_bound_lazy*` (bound 1) say MORE than the property asks for (a constant of the wiring) and exist for chains
+  only; for other graphs the lazy bound is `dag_rest_bound`'s.  "Emitted" counts the advances of the source (`n` chunks
   and the final advance that finds it exhausted), "pulled" the messages handed to the consumer (chunks and the end
   marker): both sides count the same things, so the statements hold up to and including the end of the run.
 -/
@@ -38,7 +44,8 @@ theorem net_no_error {w : Wiring} {n : Nat} {s : Net} (hw : WellFormed w = true)
   have hi := Inv.reachable (wf_pos hw) h
   exact ⟨hi.notDead, fun j mb hm => (hi.capAt hm).elim fun _ hh => hh.2.alive⟩
 
-/-- REST BOUND as an invariant, no worker pool: in every reachable state the source is at most `B w = 2·Σ cap`
+/-- REST BOUND as an invariant, no worker pool (`w.pool = false` excludes worker-pool wirings: sibling
+`chain_rest_bound_pool`): in every reachable state the source is at most `B w = 2·Σ cap`
 messages ahead of the consumer; `B` is a function of the wiring only (not of the run length `n`, not of the schedule) -/
 theorem chain_rest_bound {w : Wiring} {n : Nat} {s : Net} (hw : WellFormed w = true) (hp : w.pool = false)
     (h : Reachable w n s) : s.emitted ≤ s.pulled + B w := by
@@ -137,8 +144,8 @@ theorem mailbox_local_backpressure {c : Nat} {lazy : Bool} {rule : GateRule} {dr
     mb.heap.length ≤ c ∧ ∀ sub ∈ mb.subs, mb.nSent ≤ sub.next + c :=
   ⟨(h.cnt hd).capOk, fun _ hs => (h.cnt hd).backlog_sub hs⟩
 
-/-! non-vacuity: concrete wirings satisfy the hypotheses, states with work in progress are reachable, and the bound
-is attained (so `2·cap` per mailbox cannot be improved) -/
+/-! non-vacuity (anonymous `example`s, not counted as theorems): concrete wirings satisfy the hypotheses, states with
+work in progress are reachable, and the bounds are attained — witnesses `poolDemo`, `lazyDemo` -/
 
 example : WellFormed { lazy := false, caps := [2, 1, 3], savers := [0, 1, 0] } = true := by decide
 example : WellFormed { lazy := true, caps := [4], savers := [2] } = true := by decide
